@@ -1,5 +1,7 @@
 #pragma once
 
+#include <cstdint>
+
 namespace yaclib::detail::fiber {
 
 void* GetImpl(std::uint64_t i);
@@ -8,22 +10,22 @@ void Set(void* new_value, std::uint64_t i);
 
 void SetDefault(void* new_value, std::uint64_t i);
 
+std::uint64_t NextFreeIndex() noexcept;
+
 template <typename Type>
 class ThreadLocalPtrProxy final {
-  inline static std::uint64_t sNextFreeIndex = 0;
-
  public:
-  ThreadLocalPtrProxy() noexcept : _i(sNextFreeIndex++) {
+  ThreadLocalPtrProxy() noexcept : _i(NextFreeIndex()) {
   }
 
-  ThreadLocalPtrProxy(Type* value) noexcept : _i(sNextFreeIndex++) {
+  ThreadLocalPtrProxy(Type* value) noexcept : _i(NextFreeIndex()) {
     if (value != nullptr) {
       SetDefault(value, _i);
     }
   }
   ThreadLocalPtrProxy(ThreadLocalPtrProxy&& other) noexcept : _i(other._i) {
   }
-  ThreadLocalPtrProxy(const ThreadLocalPtrProxy& other) noexcept : _i(sNextFreeIndex++) {
+  ThreadLocalPtrProxy(const ThreadLocalPtrProxy& other) noexcept : _i(NextFreeIndex()) {
     SetDefault(GetImpl(other._i), _i);
   }
 
@@ -47,7 +49,7 @@ class ThreadLocalPtrProxy final {
   ThreadLocalPtrProxy(ThreadLocalPtrProxy<U>&& other) noexcept : _i(other._i) {
   }
   template <typename U>
-  ThreadLocalPtrProxy(const ThreadLocalPtrProxy<U>& other) noexcept : _i(sNextFreeIndex++) {
+  ThreadLocalPtrProxy(const ThreadLocalPtrProxy<U>& other) noexcept : _i(NextFreeIndex()) {
     SetDefault(GetImpl(other._i), _i);
   }
 
